@@ -299,7 +299,7 @@ PROPS["C16"] = dict(
     rule="ingest of tables with 2..13 blocks (thorough: up to 80) with 1..16 workers, GOMAXPROCS in {1,2,4,16}, seeded random Gosched/sleep at the shared-state touch points (verif hook), "
          "1 in 6 with a store error injected into one worker; the harness binary is built with -race (GORACE=halt_on_error=1), a 60 s watchdog catches hangs; result compared with the "
          "one-worker run and with the Lean pool model under a schedule shipped with the case; non-trivial = >=2 effective workers and >=2 blocks; distinct = distinct (op, input)",
-    modelled="pkg/ingest/inserter.go: the worker pool of insertBlock (receive, save, publish to rowsCount/asyncBlocks), sortBlocks' re-ordering by offset; the critical section is an extracted fact",
+    modelled="pkg/ingest/inserter.go: the worker pool of insertBlock (receive, save, publish to rowsCount/asyncBlocks), sortBlocks' re-ordering by offset; the critical section is an extracted fact; the pipeline of one IngestTableFromSorter call (Model/Pipe.lean): the producer goroutine of Sorter.SortedBlocks taking rows out of the caller's sorter and blocking in its sends, the buffered block channel, workers that may fail, the coordinator's wait and the cancellation that is only polled before a send",
     assumptions=["the Go memory model, scheduler and channel implementation are not modelled: a data race can only be exhibited by the race detector (failing-schedule search), not excluded by it",
                  "diff and merge pipelines are exercised concurrently by C04/C05's runs but their goroutine structure is not modelled here"],
 )
@@ -360,7 +360,7 @@ _RULE_EXTRA = {
     "C13": "; every write position also as a single injected write error (the operation continues): consistency, error reported or harmless, re-run; every crash point also as a recovery history (crash, a complete prune of the reopened repository, the operation again: same refs, every commit they reach and its table present, consistent); 1 in 4 cases: the fetch command's Fetch (default refspec) against the reference server, remote 1..3 commits ahead on main, optional second branch, 0..2 tags outside the refspec, 1..n packfiles, the remote's commit times following the history (1 in 2) or running backwards / jumping either way / all equal (a commit may be older than its parent); 1 in 4: one of the four kinds in a repository that also holds an unreachable commit; 1 in 12: `transaction commit` of an open transaction staging 1..3 branches (existing and new), staged as `wrgl commit --txid` does (write kinds and pairing from the extracted loop order; each interrupted run judged on its own branch order)",
     "C14": "; 1 in 5 scenarios inject the fault into discard (crash or single error at each of its store operations) and discard again; commit faults as crash or single error; 1 in 5 scenarios: the fault is one failing SQL statement inside the ref store (trigger: either statement of a branch's logged ref update, the status flip, a staged-ref delete, the transaction-row delete), then re-run / discard; 1 in 100 (thorough 1 in 400): branches made and the transaction staged by `wrgl commit --txid` (file argument / branch.file / --all in turn), dumped before and after staging and after each `wrgl transaction commit/discard` (one with a staged commit unreadable); every third scenario (tag advance): 1..3 ordinary commits of other operations (ref.CommitHead on the raw stores, as `wrgl commit` does) land on any of the four branch names, mostly staged ones, anywhere in the sequence - before the first run, between an interrupted run and the re-run (on branches that run has moved and on ones it has not), after a discard, after the end; every state is judged by `branch-unmoved-or-moved-exactly-once` (a branch is where those commits alone would leave it, or carries the staged commit exactly once with the later ones on top: movedOnceHeads) and the model runs txAdvance",
     "C15": "; 1 in 8 logged sets run with a failing reflog insert (SQL trigger): must fail and change nothing; 1 in 4 sequences: logged sets with generated author, action, time and transaction id (two ids or none), then logged set + copy/rename + log read of the target; log entries are compared in all their fields; 1 in 5 sequences (tag store=fs): 60..130 ops (thorough 40..260) on the file-based store pkg/ref/fs over 17 file names and the names bulk renames make of them: three refs take most logged sets (entries of 60..400 bytes, generated author/e-mail/action/time, old value handed in as ref.SaveRef does), so logs reach dozens of entries over several 1024-byte chunks of the backward scanner; rename/copy also into directories that held no log; single-directory prefix listings, bulk delete/rename of remotes; logs read in between and for every name at the end; 1 case in 20 (tag fs-rejected): a file-store history that also holds renames / copies / plain sets the directory layout has to refuse (destination is an existing directory or lies below a bound name; c15FsDomain a7): they must fail and change nothing, sources are read and renamed again afterwards; 1 case in 40 (tag longlog): one ref of the SQL store takes 63..700 logged sets (thorough ..1500; half of the lengths on and next to 64/128/256/512), plain and with generated fields, a few other operations in between; its log is read, the ref is copied or renamed, the target log is read, extended and read again",
-    "C16": "; 1 in 4 cases: a merge of 2..3 branches (256..955 rows) with a deleted block / block index of base or branch or reads failing after k, under a 75 s watchdog, and without fault compared with the one-processor outcome; the table index is compared too; 1 in 4 of the rest: the commit command's ingest helper on a store that refuses the k-th write (must return the error, never hang); 1 in 5 of the rest: a progress bar created with total in {-1,0,1,5,10,1000}, moved by 0..4 Incr/SetTotal/SetCurrent calls, finished with Done() under a 20 s timer, compared with Model/PBar.lean; the merge consumer reaches the merge channel 0 / 0.3 / 20 ms after Start() (by case index) and, like `wrgl merge`, asks the merger for Columns() and PK() on the first message: they must be the merged table's columns and key, with or without a fault; on 1 case index in 6 additionally an ingest through a store whose writes take 0.5 / 2 / 5 ms (tag slow-store) with more blocks than the sorted-block channel's buffer and the workers hold together (buffer + 2..3 x effective workers + 1, sometimes a few more; 1 in 3 with the sorter spilling several runs to disk), so that the producer blocks in its sends and the last block is sent into a full channel: same table, row and block count as the single-threaded run; three such inputs are corpus cases (corpus/C16/slowstore.jsonl)",
+    "C16": "; 1 in 4 cases: a merge of 2..3 branches (256..955 rows) with a deleted block / block index of base or branch or reads failing after k, under a 75 s watchdog, and without fault compared with the one-processor outcome; the table index is compared too; 1 in 4 of the rest: the commit command's ingest helper on a store that refuses the k-th write (must return the error, never hang); 1 in 5 of the rest: a progress bar created with total in {-1,0,1,5,10,1000}, moved by 0..4 Incr/SetTotal/SetCurrent calls, finished with Done() under a 20 s timer, compared with Model/PBar.lean; the merge consumer reaches the merge channel 0 / 0.3 / 20 ms after Start() (by case index) and, like `wrgl merge`, asks the merger for Columns() and PK() on the first message: they must be the merged table's columns and key, with or without a fault; on 1 case index in 6 additionally an ingest through a store whose writes take 0.5 / 2 / 5 ms (tag slow-store) with more blocks than the sorted-block channel's buffer and the workers hold together (buffer + 2..3 x effective workers + 1, sometimes a few more; 1 in 3 with the sorter spilling several runs to disk), so that the producer blocks in its sends and the last block is sent into a full channel: same table, row and block count as the single-threaded run; three such inputs are corpus cases (corpus/C16/slowstore.jsonl); on another case index in 6 additionally a history (op ingest-history, tag history): 2..3 ingests in a row on ONE sorter, which the caller empties (Reset) and reloads between them - the same rows again (a retry) or another table - 4..10 workers (>= 2 effective), a store whose writes take 0 / 0.3 / 1 / 3 ms, tables with more blocks than the sorted-block channel and the workers hold (1 in 4 short), 1 in 4 with the sorter spilling runs to disk; every attempt but the last mostly carries ONE transient write error (the k-th write of the attempt fails once: early, while the producer is far from done, or anywhere, the coordinator's writes included), the caller goes on at once or after 0.2 / 2 ms. Each attempt is judged on its own against the pipeline model (Model/Pipe.lean) under a shipped schedule: an error exactly when a write was refused, otherwise the table, rows, blocks and table index of a single-threaded ingest of its rows on a fresh sorter, and no write reaches the store through an attempt's handle after the attempt has returned (clause ingest-is-over-when-it-returns); three such histories are corpus cases (corpus/C16/history.jsonl). Histories in which EVERY worker of an attempt fails are generated only with VERIF_C16_HIST_ALL_WORKERS_FAIL=1: the unchanged tree races there (DESIGN.md section 9, corpus/C16/held/sole-worker-failure.replay.json)",
     "C17": "; well-formed packfiles whose block decompresses but is invalid, or whose table object lies about its blocks (key index out of range, wrong row count, wrong width); every 4-byte window of small objects overwritten by a huge count; profiles declaring fewer field names; commit / table / profile bytes also read through the store getters; every string-list / uint-list input also through the decoders built with reuseRecords=true, through StrListDecoder.ReadBytes and the float-list decoder (tag decoder-option); with every receiver case a well-formed packfile whose commit lacks a parent (only parent absent / second parent of a merge absent with the first already in the destination / child sent before its parent)",
     "C18": "; the string-list and uint-list streams also through the decoders built with reuseRecords=true and through StrListDecoder.ReadBytes; with every string-list case a row stream (1..14 rows of 0..5 cells up to 6000 bytes, read with ONE decoder until end of stream by Read and by ReadBytes, both options) under 3 (thorough 8) random chunkings and under fixed 4096- and 512-byte blocks at phase 0 and at a random phase, compared with the whole-buffer result and the Lean row-stream model",
     "C19": "; keyless tables over a tiny alphabet with the empty cell; the two outputs must agree also when keys repeat; on 1 in 12 case indices also 1..10 rows with 1..3 cells of 65533..65536 bytes in removed / kept / key columns (tag limit-cell); on 2 in 12 also one sorter used for 2..3 tables of different shapes with Reset() in between (op sort-reuse), the earlier uses abandoned after AddRow / read under a cancelled context / read to the end: every use read to the end must satisfy the same clauses for its own table and agree with the model started from the empty state, and after Close() no spill file of any use may be left",
@@ -407,7 +407,7 @@ _LEVEL_EXTRA = {
            "Other operations committing to the branches before and between the runs (txAdvance): the re-run completes the transaction with exactly one log entry and exactly one commit of the transaction in the history of every staged branch and none elsewhere "
            "(C14_completable_across_advances), and leaves a branch an earlier run has moved exactly where it finds it (C14_rerun_keeps_moved_branch, C14_advance_frame).",
     "C19": " A sorter re-used after Reset() starts from the empty state whatever the previous use left in it (C19_reuse_history_independent), hence emits one row per distinct key of the table loaded after the Reset (C19_reuse_kept_spec); for key-less tables that is exactly the set of the table's own distinct rows, each once (C19_reuse_keyless_keeps_every_row), the key being every column of THAT table's width (C19_keyless_key_is_all_columns) and of no narrower one (C19_narrower_index_list_collapses_rows).",
-    "C16": " Error reporting never blocks when the channel has one slot per sender (C16_error_report_never_blocks; the capacities of the ingest and merge error channels are extracted facts). Finishing a progress bar returns in every bar state (C16_pbar_done_returns, tied by the fact pbarDoneForcesCompletion).",
+    "C16": " Error reporting never blocks when the channel has one slot per sender (C16_error_report_never_blocks; the capacities of the ingest and merge error channels are extracted facts). Finishing a progress bar returns in every bar state (C16_pbar_done_returns, tied by the fact pbarDoneForcesCompletion). An ingest that waits for all its workers is over when it returns, for every fault position and schedule, provided one worker saw the channel closed: nothing of it touches the sorter the caller reloads (C16_ingest_is_over_when_it_returns; C16_early_return_witness and C16_sole_worker_failure_witness show both premises are needed); without a fault every completing schedule counts every row (C16_pipeline_counts_every_row).",
 }
 for _k, _v in _LEVEL_EXTRA.items():
     PROPS[_k]["level_text"] = PROPS[_k]["level_text"] + _v
